@@ -512,15 +512,20 @@ def setup_ifaddrs(it, cfg):
     it.env_over.update(flags_env(WINDOWS=True) if win else flags_env(LINUX=True, POSIX=True))
     fam = int(socket.AF_INET)
     raw = [("eth0", fam, "10.0.0.5", "255.255.255.0", None if win else "10.0.0.255", None),
-           ("eth0", -1 if win else 17, "aa-bb" if win else "aa:bb", None, None, None)]
+           ("eth0", -1 if win else 17, "aa-bb" if win else "aa:bb", None, None, None),
+           # a second interface: each row's broadcast is computed from that row, not carried over from another one
+           ("eth1", fam, "192.168.1.7", "255.255.0.0", None if win else "192.168.255.255", None),
+           ("eth1", fam, "172.16.0.9", "255.240.0.0", None if win else "172.31.255.255", None)]
     plat = "_pswindows" if win else "_pslinux"
     it.env_over[f"{plat}.net_if_addrs"] = EnvFunc("raw", lambda it2: list(raw))
     it.env_over[f"{plat}.AF_LINK"] = -1 if win else 17
     it.env_over["__init__._psplatform"] = Stub({"net_if_addrs": EnvFunc("raw", lambda it2: list(raw)),
                                                 "AF_LINK": -1 if win else 17})
     bcast = it.fresh("computed_broadcast", "String", "str")
-    it.env_over["_common.broadcast_addr"] = EnvFunc("broadcast_addr", lambda it2, nt: bcast)
-    return {"args": {}, "spec": {"win": win, "bcast": bcast}, "values": [bcast]}
+    bc2, bc3 = it.fresh("computed_broadcast2", "String", "str"), it.fresh("computed_broadcast3", "String", "str")
+    by_addr = {"10.0.0.5": bcast, "192.168.1.7": bc2, "172.16.0.9": bc3}
+    it.env_over["_common.broadcast_addr"] = EnvFunc("broadcast_addr", lambda it2, nt: by_addr[nt.address])
+    return {"args": {}, "spec": {"win": win, "bcast": bcast, "bc2": bc2, "bc3": bc3}, "values": [bcast, bc2, bc3]}
 
 
 import collections as _c  # noqa: E402
@@ -530,7 +535,10 @@ REGISTRY.add(Contract(
     "C20", INIT, "net_if_addrs", setup=setup_ifaddrs,
     env=flags_env(), configs=[{"windows": True}, {"windows": False}], name="__init__.net_if_addrs",
     ensures=[
-        "set(result) == {'eth0'} and len(result['eth0']) == 2",
+        "set(result) == {'eth0', 'eth1'} and len(result['eth0']) == 2 and len(result['eth1']) == 2",
+        "implies(win, {r.address: r.broadcast for r in result['eth1']} == {'192.168.1.7': bc2, '172.16.0.9': bc3})",
+        "implies(not win, {r.address: r.broadcast for r in result['eth1']} == "
+        "{'192.168.1.7': '192.168.255.255', '172.16.0.9': '172.31.255.255'})",
         # rows are sorted by family: on Windows the link row (family -1) comes first, on Linux the inet row
         "implies(win, result['eth0'][1].broadcast == bcast)",             # the computed broadcast address takes effect
         "implies(not win, result['eth0'][0].broadcast == '10.0.0.255')",
